@@ -252,6 +252,7 @@ func runC10(c *Ctx) {
 	}
 
 	ruleArgumentOnlyWhenUnsupplied(c, "C10.3")
+	ruleRequestedTypeIsPrinted(c, "C10.4")
 	// suppliers and requirements meet under one key (otherwise a supplied type becomes a parameter)
 	c09SupplierMap(c, "C10.3")
 	ruleIsContextType(c, "C10.6")
